@@ -41,6 +41,8 @@ UNIT = {
     'property': 'C03',
     'rlimit': 60,
     'uses': [],
+    # vacuity twin: every contracted fn with a precondition gets `ensures false` appended and must fail
+    'controls': 'auto',
     'items': [
         ('@file', 'prelude_math.rs'),
         # ---- types and operator tables -------------------------------------------------
